@@ -3,7 +3,7 @@
    undo it. The RevertUpdate diffs and proofs of the implementation are checked by the correspondence
    (store inverse after every revert, proofs equal to the pre-block proofs, byte-identical re-apply). *)
 From Coq Require Import ZArith List Bool.
-From Sia Require Import Prim.Result Prim.Tok Policy.Model Ledger.Types Ledger.Mid Ledger.Validate Ledger.Apply Ledger.Proofs Ledger.Revert.
+From Sia Require Import Prim.Result Prim.Tok Policy.Model Ledger.Types Ledger.Mid Ledger.Validate Ledger.Apply Ledger.Proofs Ledger.Revert Ledger.Persist Ledger.RevertOk.
 Import ListNotations.
 Open Scope Z_scope.
 
@@ -41,3 +41,13 @@ Theorem C06_revert_restores : forall net s b s' m, apply_block net s b = Ok (s',
   revert_leaves s s' m b = s_leaves s.
 Proof. exact revert_restores. Qed.
 Print Assumptions C06_revert_restores.
+
+(* for an accepted block (no v1 transactions, no expiring v1 contracts) the hypothesis above is established by validation:
+   every diff with an assigned leaf records exactly the element that leaf held (a spent element and a revised or resolved
+   contract are recorded as presented, and validation has compared the presented element, field by field, with the leaf),
+   so undoing the block restores the element store -- no hypothesis about the diffs left *)
+Theorem C06_revert_restores_accepted : forall H net vt pt se sd s b s' m,
+  validate_block H net vt pt se sd s b = Ok tt -> apply_block net s b = Ok (s', m) ->
+  b_txns b = [] -> b_expiring b = [] -> revert_leaves s s' m b = s_leaves s.
+Proof. exact revert_restores_accepted. Qed.
+Print Assumptions C06_revert_restores_accepted.
